@@ -375,7 +375,7 @@ def dist_scenarios(ctx):
                          dict(mode="default_bs", sums=sums_of_stacked(rand_rows(rnd, bs, C), widths))]
                 r = rnd.random()
                 if r < 0.25:
-                    evals.append(dict(mode="model", bs=bs, table=rand_rows(rnd, bs, C), seed=rnd.randint(0, 10 ** 6)))
+                    evals.append(dict(mode="model", bs=bs, table=rand_rows(rnd, bs, C), seed=(0 if rnd.random() < 0.1 else rnd.randint(0, 10 ** 6))))
                 elif r < 0.35:
                     n_sim = bs * rnd.randint(1, 3)
                     evals.append(dict(mode="sampler", bs=bs, n=rnd.randint(1, n_sim), n_sim=n_sim,
